@@ -15,8 +15,11 @@
 EXTENDS Integers, Sequences, FiniteSets
 
 CONSTANTS Plan,
-          WaitsForSecondPipeline  \* FALSE: as coded at 446285c (the cat-file --batch pipeline is
+          WaitsForSecondPipeline, \* FALSE: as coded at 446285c (the cat-file --batch pipeline is
                                   \* never waited for: finding D5); TRUE: as repaired
+          MayBeStopped,           \* TRUE: the run may be stopped from outside (SIGKILL / SIGTERM) at any moment
+          KeepsLockFile           \* FALSE: as coded. TRUE (a control, refuted): the run keeps a file of its own in
+                                  \* the git directory while it scans and removes it in a deferred call
 
 VARIABLES pc,       \* index of the next invocation; Len(Plan)+1 when all have run
           fault,    \* 0, or the index of the invocation that failed
@@ -31,11 +34,23 @@ vars == <<pc, fault, where, exit, stdout, stderr, repo>>
 Init == pc = 1 /\ fault = 0 /\ where = "none" /\ exit = -1 /\ stdout = "none"
         /\ stderr = "none" /\ repo = "digest"
 
+\* what the run itself does to the repository when it goes from invocation i to the next / ends
+ScanStart == CHOOSE i \in 1..Len(Plan) : Plan[i] = "for-each-ref"
+RepoAfterStep(i) == IF KeepsLockFile /\ i = ScanStart THEN "digest+lockfile" ELSE repo
+RepoAtEnd == "digest"     \* deferred calls have run
+
 \* invocation pc completes normally
 Run ==
   /\ exit = -1 /\ pc <= Len(Plan)
   /\ pc' = pc + 1
-  /\ UNCHANGED <<fault, where, exit, stdout, stderr, repo>>
+  /\ repo' = RepoAfterStep(pc)
+  /\ UNCHANGED <<fault, where, exit, stdout, stderr>>
+
+\* the run is stopped from outside: no deferred call runs, nothing more is written anywhere
+Stopped ==
+  /\ MayBeStopped /\ exit = -1
+  /\ exit' = 2 /\ pc' = Len(Plan) + 2
+  /\ UNCHANGED <<fault, where, stdout, stderr, repo>>
 
 \* invocation pc fails (exit status or signal) at position w of its output
 Fail(w) ==
@@ -46,22 +61,26 @@ Fail(w) ==
           /\ pc' = pc + 1 /\ UNCHANGED <<exit, stdout, stderr>>
      ELSE \* the error reaches mainImplementation: message on stderr, status 1, no report
           /\ exit' = 1 /\ stderr' = "error" /\ stdout' = "none" /\ pc' = Len(Plan) + 2
-  /\ UNCHANGED repo
+  /\ repo' = IF exit' = 1 THEN RepoAtEnd ELSE repo
 
 Report ==
   /\ exit = -1 /\ pc = Len(Plan) + 1
   /\ stdout' = "report" /\ exit' = 0
-  /\ UNCHANGED <<pc, fault, where, stderr, repo>>
+  /\ repo' = RepoAtEnd
+  /\ UNCHANGED <<pc, fault, where, stderr>>
 
-Next == Run \/ Report \/ \E w \in {"before", "middle", "after"} : Fail(w)
+Next == Run \/ Report \/ Stopped \/ \E w \in {"before", "middle", "after"} : Fail(w)
 Spec == Init /\ [][Next]_vars /\ WF_vars(Next)
 
 \* C10
 AllOrNothing ==
   /\ exit = 0 => stdout = "report" /\ fault = 0
-  /\ (fault # 0 /\ exit # -1) => exit = 1 /\ stdout = "none" /\ stderr = "error"
+  /\ (fault # 0 /\ exit \in {0, 1}) => exit = 1 /\ stdout = "none" /\ stderr = "error"
   /\ stdout = "report" => exit = 0
+  /\ exit = 2 => stdout = "none"          \* a run stopped from outside has written no report
 Terminates == <>(exit # -1)
-\* C17: nothing the run does writes to the repository
+\* C17: nothing the run does writes to the repository -- in no state of the run, however it ends (the harness
+\* looks at the repository when every git child begins, after complete runs and after stopped ones)
 ReadOnly == [][repo' = repo]_vars
+ReadOnlyInv == repo = "digest"
 =============================================================================
